@@ -8,6 +8,7 @@ import Verif.Props.C19
 #print axioms Verif.Props.C19.reports_only_configured
 #print axioms Verif.Props.C19.unconfigured_untouched
 #print axioms Verif.Props.C19.configured_becomes_pending
+#print axioms Verif.Props.C19.two_routes_two_instances
 #print axioms Verif.Props.C19.drop_unblocks
 #print axioms Verif.Props.C19.foreign_step
 #print axioms Verif.Props.C19.foreign_untouched
